@@ -85,6 +85,10 @@ def witness_descriptors(flags):
     for ks in ('A', 'B', 'AB', 'BA', 'AC', 'AA', 'ABC'):
         out.append(('multi', ks, '00', (1, 2), ()))
     out.append(('multi', 'AB', '01', (1, 2), ()))
+    # one holder signing twice with different flag bytes, and honest mixed-flag quorums
+    for pairs in ((('A', '00'), ('A', '01')), (('A', '01'), ('A', '00')), (('A', '00'), ('B', '01')), (('B', '01'), ('B', '00')),
+                  (('A', '00'), ('A', '00')), (('C', '00'), ('C', '01'))):
+        out.append(('multi2', pairs))
     for s in ('true', 'false', 'two', 'sigC', 'ts'):
         out.append(('scripthash', s, None))
         out.append(('scripthash', s, 'C'))
@@ -135,6 +139,8 @@ def build_witness(seed, d):
         fn = {'single': T.make_single_sig_witness, 'single2': T.make_single_sig_witness2,
               'graftroot-key': T.make_graftroot_witness_keyspend, 'graftap-key': T.make_graftap_witness_keyspend}[d[0]]
         r = fn(sk[k], sf, fl).bytes
+    elif d[0] == 'multi2':
+        r = b''.join(T.make_single_sig_witness(sk[k], sigfields(seed, (1, 2)), fl).bytes for k, fl in d[1])
     elif d[0] == 'multi':
         _, ks, fl, fs, ch = d
         r = b''.join(T.make_single_sig_witness(sk[k], sigfields(seed, fs, ch), fl).bytes for k in ks)
@@ -195,6 +201,17 @@ def predicted(w, l, vfields):
         if flag & ~allowed & 0xff:
             return False
         if covered(fs, flag) != covered(sorted(vf), flag):
+            return False
+        return len(set(ks)) == len(ks) and all(k in keys for k in ks)
+    if w[0] == 'multi2' and l[0] == 'multisig':
+        _, keys, m, al = l
+        allowed = int(al, 16)
+        ks = [k for k, _ in w[1]]
+        if len(ks) != m:
+            return None if len(ks) > m else False
+        if any(int(fl, 16) & ~allowed & 0xff for _, fl in w[1]):
+            return False
+        if any(covered((1, 2), int(fl, 16)) != covered(sorted(vf), int(fl, 16)) for _, fl in w[1]):
             return False
         return len(set(ks)) == len(ks) and all(k in keys for k in ks)
     if w[0] == 'scripthash' and l[0] == 'scripthash':
